@@ -3,5 +3,6 @@ import LettreVerif.Props.C09
 #print axioms LV.C09.shutdown_shuts
 #print axioms LV.C09.shutdown_closes_parked
 #print axioms LV.C09.abort_sends_quit
+#print axioms LV.C09.shutdown_quits_every_live_parked
 #print axioms LV.C09.send_after_shutdown_fails
 #print axioms LV.C09.return_after_shutdown_closes
